@@ -20,6 +20,7 @@ TwoStepEv(e) ==
   IF "panic" \in DOMAIN e THEN Bad(<<"C14", "unify panicked">>)
   ELSE /\ (e.res => Judge(e.a, e.b, e.store1, e))
        /\ (e.res2 => Judge(e.a2, e.b2, e.store, e))
+       /\ (IF e.kind = "again" /\ e.res /\ ~e.res2 THEN Bad(<<"C12", "a unification that succeeded is not confirmed when it is repeated on the same terms (the solved holes are read back differently)", e.kind>>) ELSE TRUE)
        /\ ((e.res /\ e.res2 /\ Acyclic(e.a, e.b, e.store) /\ ~Consistent(e.a, e.b, e.store, <<>>)) => Print(<<"TRACE-NOTE", l, "chain: first pair no longer equal after the second call">>, TRUE))
 \* the clauses are judged independently (an observation may break several statements; every check filters by its own tag)
 UnifyEv(e) ==
